@@ -9,6 +9,7 @@
   code does by its pointer (the memo of fix 06 is keyed by field nodes).
 -/
 import ApiFu.C04.Merge15
+import ApiFu.C04.Hyp
 import ApiFu.C04.PropsMerge
 
 namespace ApiFu.C04
@@ -23,6 +24,28 @@ structure InputOk (S : Schema) (D : Document) : Prop where
   typesProper : S.typesProper = true
   setPos : PosUnique S D
   fieldPos : FPosUnique S D
+
+/-- The driver's per-case check (`hypFailures`, reported as `(hyp ok)`) is exactly `InputOk`. -/
+theorem inputOk_of_hyp {S : Schema} {D : Document} (h : hypFailures S D = []) : InputOk S D := by
+  unfold hypFailures at h
+  simp only [List.append_eq_nil_iff] at h
+  obtain ⟨⟨⟨⟨h1, h2⟩, h3⟩, h4⟩, h5⟩ := h
+  refine ⟨?_, ?_, ?_, ?_, ?_⟩
+  · cases hw : S.wf with
+    | true => rfl
+    | false => simp [hw] at h1
+  · cases hw : Schema.wfDefaults S with
+    | true => rfl
+    | false => simp [hw] at h2
+  · cases hw : S.typesProper with
+    | true => rfl
+    | false => simp [hw] at h3
+  · by_cases hp : PosUnique S D
+    · exact hp
+    · simp [hp] at h4
+  · by_cases hp : FPosUnique S D
+    · exact hp
+    · simp [hp] at h5
 
 /-- **Overlapping fields** (validate_fields.go:95-284 with fixes 01, 02, 06 = §5.3.2
     FieldsInSetCanMerge + SameResponseShape): on a well-scoped document with unique fragment
@@ -172,9 +195,6 @@ theorem accepts_sound {S : Schema} {D : Document} (hin : InputOk S D) (h : Model
 /-! ## Non-vacuity: the hypotheses are satisfiable and both outcomes occur under them. `decide`
     evaluates concrete instances only; the claims are the theorems above. -/
 
-instance (S : Schema) (D : Document) : Decidable (PosUnique S D) := by unfold PosUnique; infer_instance
-instance (S : Schema) (D : Document) : Decidable (FPosUnique S D) := by unfold FPosUnique; infer_instance
-
 /-- `{ a: f(a: 1) a: f(a: 2) }`: the input of F-04a. -/
 def exConflict : Document :=
   q [.field (some ("a", ⟨1, 3⟩)) "f" ⟨1, 6⟩ [{ name := "a", pos := ⟨1, 8⟩, value := .int "1" ⟨1, 11⟩ }] [] none,
@@ -205,5 +225,6 @@ example : MergeHyp2 exS exSame :=
 example : Spec.fieldsMerge exS exSame = true := by decide
 example : Spec.valid exS exSame = true := by decide
 example : InputOk exS exSame := ⟨exS_wf, by decide, by decide, by decide, by decide⟩
+example : hypFailures exS exConflict = [] := by decide
 
 end ApiFu.C04
